@@ -266,9 +266,17 @@ class League:
     def label(self, name):
         return self.labels.get(name, name)
 
-    def join(self, name, mu=None, sigma=None, has_mu=False, has_sigma=False, label=None):
+    def join(self, name, mu=None, sigma=None, has_mu=False, has_sigma=False, label=None, clone_of=None):
         if label is not None:
             self.labels[name] = label
+        if clone_of is not None and clone_of in self.players:
+            # a new player made from a template: copy.deepcopy keeps the template's id, so two
+            # distinct rating objects with ONE id live in the league from here on
+            p = copy.deepcopy(self.players[clone_of])
+            self.labels[name] = self.label(clone_of)
+            self.players[name] = p
+            self.save(name)
+            return p
         kw = {"name": self.label(name)}
         if has_mu:
             kw["mu"] = mu
@@ -477,6 +485,11 @@ def gen_population(rng, cfg, n, style):
             else:
                 op["sigma"] = enc(10.0 ** rng.uniform(math.log10(d.sig_min), math.log10(d.sig_max)))
         ops.append(op)
+    if rng.random() < 0.25:
+        # some players are clones of a template player (same id, values diverge as they play)
+        for i in range(1, n):
+            if rng.random() < 0.35:
+                ops[i] = {"op": "NEW", "name": "p%d" % i, "clone_of": "p%d" % rng.randrange(0, i)}
     return ops
 
 
